@@ -41,7 +41,9 @@ func findCommitsToRemove(db objects.Store, rs ref.Store, pbarAdd func()) (commit
 		ind := sort.Search(len(commitKeys), func(i int) bool {
 			return string(commitKeys[i]) >= string(sum)
 		})
-		commitFound[ind] = true
+		if ind < len(commitKeys) && string(commitKeys[ind]) == string(sum) {
+			commitFound[ind] = true
+		}
 	}
 	for i, found := range commitFound {
 		if !found {
@@ -67,7 +69,10 @@ func pruneTables(db objects.Store, survivingCommits [][]byte, allBlockKeys, allB
 				return err
 			}
 			i := sort.Search(len(tableHashes), func(i int) bool { return string(tableHashes[i]) >= string(commit.Table) })
-			tableFound[i] = true
+			// a shallow commit's table is not in this repository
+			if i < len(tableHashes) && string(tableHashes[i]) == string(commit.Table) {
+				tableFound[i] = true
+			}
 		}
 		for i, keep := range tableFound {
 			sum := tableHashes[i]
@@ -91,13 +96,17 @@ func pruneTables(db objects.Store, survivingCommits [][]byte, allBlockKeys, allB
 					j := sort.Search(len(allBlockKeys), func(i int) bool {
 						return string(allBlockKeys[i]) >= string(blk)
 					})
-					keepBlock[j] = true
+					if j < len(allBlockKeys) && string(allBlockKeys[j]) == string(blk) {
+						keepBlock[j] = true
+					}
 				}
 				for _, blk := range ts.BlockIndices {
 					j := sort.Search(len(allBlockIdxKeys), func(i int) bool {
 						return string(allBlockIdxKeys[i]) >= string(blk)
 					})
-					keepBlockIndex[j] = true
+					if j < len(allBlockIdxKeys) && string(allBlockIdxKeys[j]) == string(blk) {
+						keepBlockIndex[j] = true
+					}
 				}
 			}
 		}
